@@ -14,7 +14,7 @@ RULE = ('(every 4th case runs the same experiment at Master level: a real Master
         'capacity - recounted demand, recounted affinity head-room at server and every ancestor, a free identity) '
         'says it fits => the probe must be placed. Non-trivial: the scan found a fit and (a server is not up, or a '
         'server was removed/reloaded earlier in the history, or the feasibility tracker was consulted).')
-BUDGET = {'quick': (120, 30.0), 'thorough': (2500, 280.0)}
+BUDGET = {'quick': (260, 40.0), 'thorough': (2500, 280.0)}
 REQUIRED_REACH = {'*': ['probe_fits', 'probe_fits_placed', 'probe_tracker_consulted', 'quiescent_states', 'quiescent_master_states', 'master_probe_fits', 'identity_exhaustion_probes']}
 PROBES = 8
 
@@ -188,7 +188,7 @@ def run(ctx):
             H, cell = h.drv.H, h.drv.cell
             for g in sorted(H.groups):
                 held = {a.identity for n, a in cell.apps.items()
-                        if n in H.apps and H.apps[n]['group'] == g and a.identity is not None}
+                        if n in H.apps and H.apps[n]['group'] == g and a.identity is not None and a.server}
                 free = len(set(range(H.groups[g])) - held)
                 labels = sorted({s['label'] for s in H.servers.values() if s['state'] == 'up'})
                 if not free or not labels:
